@@ -79,12 +79,15 @@ RULE = ('abstract hit lists (1-8 hits; all nine sign combinations of subject/que
         'different dialects and column sets in varying order; comments= lists new and shared across reads with header lines; '
         'everything a read returned vandalised before the next read; one outfmt text handed to two dialects; reads after a read '
         'that raised half way, including tables wider than any Infernal table); each step is compared with the pure model on that '
-        "step's input and with the first-principles oracle")
+        "step's input and with the first-principles oracle. Round 5: free-text and numeric columns in non-final position left "
+        'EMPTY for some hits (the full per-hit column dict, key set and values, is compared); the same table stored as utf-8-sig, '
+        'latin-1 (non-ASCII word in a title column / Infernal description), utf-16, utf-16-le, utf-8 and read with the matching '
+        'encoding= from a path, a binary handle and a BytesIO, in every rendering')
 TRUSTED = ['CPython int()/float()/str.split/strip/startswith and text-mode line iteration (modelled, compared on every case)',
            'float values: the model keeps the decimal literal; the harness converts it with fractions.Fraction and compares bit patterns',
            'modelled: sugar/_io/tab/core.py _headers_from_fmtstrings, read_tabular; the blast/mmseqs/infernal reader wrappers; '
            'Location/Strand/Feature constructors as far as they can raise; read_fts dispatch is inside the comparison']
-ASSUMPTIONS = ['file content, outfmt and ftype are ASCII', "numeric tokens do not use '_' digit grouping",
+ASSUMPTIONS = ['file content, outfmt and ftype are Latin-1 text (code points 0..255); other code points are not modelled', "numeric tokens do not use '_' digit grouping",
                'separator is one character or None', 'header names never collide with Attr method names (F20 not reachable)']
 
 
@@ -306,7 +309,99 @@ def rand_case(rng):
         case['ftype'] = rng.choice(['hit', 'testq', cols[0], rng.choice(cols), 'evalue', 'sstrand'])
     if d == 'blast' and case.get('cols') and 'sstrand' not in case['cols'] and rng.random() < 0.5:
         case['cols'].insert(rng.randint(0, len(case['cols'])), 'sstrand')
+    blank_fields(rng, case)
+    if rng.random() < 0.12:
+        set_encoding(rng, case)
     return case
+
+
+LATIN = ['Caf\xe9 genome, \xd8rsted strain', 'M\xfcller', 'na\xefve \xb5-test']
+
+
+def blank_fields(rng, case, p=0.35):
+    """a field between two separators may be empty: it is the empty string and stays a key of the format metadata"""
+    d = case['_d']
+    if d == 'infernal' or case.get('sepnone'):
+        return
+    cols = case_cols(case)
+    cand = [c for i, c in enumerate(cols) if 0 < i < len(cols) - 1 and c not in CORE[d] and c != 'sstrand' and cols.count(c) == 1]
+    cand.sort(key=lambda c: TYPES[d].get(c) is not str)          # free-text columns first
+    if not cand or rng.random() > p:
+        return
+    chosen = cand[:rng.choice([1, 1, 2])] if rng.random() < 0.7 else rng.sample(cand, min(len(cand), 2))
+    for h in case['hits']:
+        for c in chosen:
+            if rng.random() < 0.6:
+                h.setdefault('x', {})[c] = ''
+
+
+def set_encoding(rng, case):
+    case['enc'] = rng.choice(['utf-8-sig', 'latin-1', 'utf-16', 'utf-8', 'utf-16-le'])
+    case['_via'] = rng.choice(['file', 'bytesio', 'binfile'])
+    if True:
+        # a non-ASCII word in a free-text position (Infernal description; BLAST / MMseqs2 title columns)
+        d = case['_d']
+        for h in case['hits']:
+            if rng.random() < 0.6:
+                if d == 'infernal':
+                    h['desc'] = rng.choice(LATIN)
+                else:
+                    for c in case_cols(case):
+                        if c in ('stitle', 'theader', 'qheader') and not case.get('sepnone') and case['_style'] != '10':
+                            h.setdefault('x', {})[c] = rng.choice(LATIN)
+
+
+def blank_cases():
+    """the shape of the blank-title witness: a free-text column in the middle, empty for some hits, in every
+    separator dialect and column mode; also numeric columns left empty"""
+    out = []
+    base = {'q': 'q1', 's': 'chr1', 'ev': '3e-20', 'bs': '88.5', 'pid': '99.0', 'fid': '0.99', 'len': 10, 'mis': 0, 'gap': 0,
+            'seed': 1, 'desc': '-'}
+    h1 = dict(base, ss=1000, se=1089, qs=1, qe=90, x={'stitle': 'Homo sapiens chromosome 1', 'theader': 'chr1 Homo sapiens'})
+    h2 = dict(base, s='chr2', ss=2075, se=2000, qs=5, qe=80, x={'stitle': '', 'theader': '', 'qlen': '', 'qcovs': '', 'tcov': ''})
+    h3 = dict(base, s='chr3', ss=7, se=7, qs=5, qe=80, x={'stitle': '', 'theader': 'x', 'qlen': '12'})
+    bc = 'qseqid sseqid stitle qstart qend sstart send qlen qcovs evalue bitscore'.split()
+    mc = 'query target theader qstart qend tstart tend qlen tcov evalue bits'.split()
+    for hits in ([h1, h2], [h2], [h2, h1, h3], [h3, h2]):
+        for d, style, colmode, cols in (('blast', '6', 'outfmt', bc), ('blast', '10', 'outfmt', bc), ('blast', '7', 'header', bc),
+                                        ('blast', '7', 'header+outfmt', bc), ('mmseqs', '0', 'outfmt', mc), ('mmseqs', '4', 'header', mc),
+                                        ('mmseqs', '4', 'header+outfmt', mc)):
+            hs = [dict(h, x=dict(h['x'])) for h in hits]
+            if style == '10':
+                for h in hs:
+                    h['x'] = {k: v.replace(',', ';') for k, v in h['x'].items()}
+            out.append({'_d': d, '_style': style, '_colmode': colmode, 'cols': list(cols), 'hits': hs, '_via': 'stringio'})
+    return out
+
+
+def encoding_cases():
+    """the same table text stored as utf-8-sig / latin-1 / utf-16 and read with the matching encoding= from a path, a
+    binary handle and a BytesIO, in every rendering"""
+    out = []
+    k = 0
+    for d, style, colmode in RENDERINGS:
+        for enc in ('utf-8-sig', 'latin-1', 'utf-16', 'utf-16-le', 'utf-8'):
+            for via in ('file', 'bytesio', 'binfile'):
+                k += 1
+                hits = [hit_of('minus', k=1), hit_of('plus', k=2)]
+                for h in hits:
+                    h['sstr'] = 'sign'
+                    h['desc'] = LATIN[k % 3] if enc != 'ascii' else 'a b'
+                c = {'_d': d, '_style': style, '_colmode': colmode, 'hits': hits, '_via': via, 'enc': enc}
+                if d == 'blast' and style != '10' and k % 2:
+                    c['cols'] = 'qseqid sseqid stitle qstart qend sstart send evalue bitscore'.split()
+                    c['_colmode'] = 'header' if style == '7' else 'outfmt'
+                    for h in hits:
+                        h['x'] = {'stitle': LATIN[(k + 1) % 3]}
+                if d == 'mmseqs' and k % 2:
+                    c['cols'] = 'query target theader qstart qend tstart tend evalue bits'.split()
+                    c['_colmode'] = 'header' if style == '4' else 'outfmt'
+                    for h in hits:
+                        h['x'] = {'theader': LATIN[(k + 1) % 3]}
+                if k % 5 == 0:
+                    c['crlf'] = True
+                out.append(c)
+    return out
 
 
 ALPH = '\t ,#-_0123456789eE.+abN/A\r\n'
@@ -548,7 +643,7 @@ def gen_hist(rng, n):
 
 
 def gen_cases(rng, tier):
-    cases = directed_cases() + order_cases()
+    cases = directed_cases() + order_cases() + blank_cases() + encoding_cases()
     cases += gen_hist(rng, 3000 if tier == 'thorough' else 240)
     n = 20000 if tier == 'thorough' else 700
     for _ in range(n):
@@ -583,7 +678,26 @@ def impl_step(case, shared=None):
     cm = None
     if case.get('comments'):
         cm = kw['comments'] = shared if (case['comments'] == 'shared' and shared is not None) else []
-    if case.get('_via') == 'file' and all(ord(c) < 128 for c in content):
+    enc = case.get('enc')
+    if enc:
+        # the table stored in another text encoding, read with the documented encoding= option from a path, from a
+        # binary file handle or from a BytesIO; expected = the features of the decoded text
+        data = content.encode(enc)
+        if case.get('_via') == 'bytesio':
+            fts = read_fts(io.BytesIO(data), d, encoding=enc, **kw)
+        else:
+            fd, path = tempfile.mkstemp(prefix='C11-', suffix='.txt', dir='/tmp')
+            try:
+                with os.fdopen(fd, 'wb') as f:
+                    f.write(data)
+                if case.get('_via') == 'binfile':
+                    with open(path, 'rb') as fh:
+                        fts = read_fts(fh, d, encoding=enc, **kw)
+                else:
+                    fts = read_fts(path, d, encoding=enc, **kw)
+            finally:
+                os.unlink(path)
+    elif case.get('_via') == 'file' and all(ord(c) < 128 for c in content):
         fd, path = tempfile.mkstemp(prefix='C11-', suffix='.txt', dir='/tmp')
         try:
             with os.fdopen(fd, 'wb') as f:
@@ -717,6 +831,9 @@ def impl_hist(case):
 
 
 def univ(case):
+    """does the transport translate line ends (text layer with newline=None)?"""
+    if case.get('enc'):
+        return True
     content, _ = render(case)
     return case.get('_via') == 'file' and all(ord(c) < 128 for c in content)
 
@@ -923,6 +1040,10 @@ def histkey_step(case, got):
 
 def python_snippet_step(case):
     content, kw = render(case)
+    if case.get('enc'):
+        return ('import io; from sugar import read_fts\nfts = read_fts(io.BytesIO(%r.encode(%r)), %r, encoding=%r, **%r)\n'
+                'for ft in fts: print(ft.loc.start, ft.loc.stop, ft.loc.strand, dict(ft.meta))'
+                % (content, case['enc'], case['_d'], case['enc'], kw))
     return ('import io; from sugar import read_fts\nfts = read_fts(io.StringIO(%r), %r, **%r)\n'
             'for ft in fts: print(ft.loc.start, ft.loc.stop, ft.loc.strand, dict(ft.meta))' % (content, case['_d'], kw))
 
@@ -1046,7 +1167,8 @@ LEVEL_TEXT = ('Machine-checked Coq theorems about an executable model of read_ta
 LEVEL_NOTE = ('Trusted: Coq kernel/vm_compute, tools/gens/c11.py (tables), the correspondence harness, CPython int()/float()/str methods '
               '(the Gallina int()/float() are compared with CPython on every case; float() is not characterised by a theorem, float values '
               'are compared as exact decimal literals, DESIGN 5.3). Modelled rather than verified: core.py read_tabular and '
-              '_headers_from_fmtstrings, the three reader wrappers, the comments= option. Tested only (no theorem): agreement of the '
+              '_headers_from_fmtstrings, the three reader wrappers, the comments= option. The domain is Latin-1 text; decoding the bytes of a file '
+              '(encoding=, BOM) is CPython\'s and is only tested. Tested only (no theorem): agreement of the '
               'Gallina float() with CPython; the comments= list; MMseqs2 fmtmode 4 and BLAST outfmt 7 header discovery combined with '
               'sep=None; several "# Fields:" blocks whose rows are read with sep=None; a last line without terminator; the sniffers '
               'is_fts_* (property C03). In the end-to-end theorems a hit under a selection with a strand column must have a direction '
